@@ -253,4 +253,66 @@ Section Jwt.
         | None => JOk t
         end
     end.
+  (** ** Signing side: [simpleCore.Sign]'s choice of key (identity/simple_core.go)
+
+      [privs]: the stored private keys (id, material) in order; [req]: the key id
+      asked for ([jwtSigner] asks for the id of the card's last public key; an
+      empty id means "the last private key"). *)
+  Context {PM SK : Type}.
+  Variable parse_priv : PM -> option SK.          (* rsautil.ParsePrivateKey *)
+
+  Inductive cs_err := CsNoKey | CsKeyNotFound | CsPubNotFound | CsType | CsNotYet | CsExpired | CsParse.
+
+  Inductive cres (A : Type) := COk (a : A) | CErr (e : cs_err).
+  Arguments COk {A} a.
+  Arguments CErr {A} e.
+
+  Definition core_pick (privs : list (bytes * PM)) (card : list pubkey) (req : bytes) (now : Z)
+    : cres (bytes * SK) :=
+    match privs with
+    | [] => CErr CsNoKey
+    | p0 :: _ =>
+        let pick := if is_empty req then Some (last privs p0)
+                    else find (fun p => beq_bytes (fst p) req) privs in
+        match pick with
+        | None => CErr CsKeyNotFound
+        | Some (id, pm) =>
+            match find_key card id with
+            | None => CErr CsPubNotFound
+            | Some pub =>
+                if negb (beq_bytes (pk_type pub) key_type_rsa) then CErr CsType
+                else match key_valid pub now with
+                     | Some EKeyNotYet => CErr CsNotYet
+                     | Some _ => CErr CsExpired
+                     | None =>
+                         match parse_priv pm with
+                         | None => CErr CsParse
+                         | Some sk => COk (id, sk)
+                         end
+                     end
+            end
+        end
+    end.
+
+  (** ** [authgate.Exchange]: an access token for a session token
+
+      The tokener is a [Gate] over sessions with key [sk] and maximum lifetime
+      [maxttl]; [sess] is [Sessions.New] (Cred/Sign.v) at the same instant. *)
+  Inductive x_err := XNoToken | XToken (e : jerr) | XClaims (e : jerr) | XTtl.
+
+  Definition exchange {S : Type} (sess : Z -> bytes -> S)
+             (card : list pubkey) (issuer audience : bytes) (now : Z)
+             (tok user : bytes) (ttl : Z) : S + x_err :=
+    if is_empty tok then inr XNoToken
+    else match rs_verify card now tok with
+         | JErr e => inr (XToken e)
+         | JOk t =>
+             match check_claims (t_claims t) (mkC issuer [] audience 0 0 [] user) with
+             | Some e => inr (XClaims e)
+             | None => if ttl <=? 0 then inr XTtl else inl (sess ttl user)
+             end
+         end.
 End Jwt.
+
+Arguments COk {A} a.
+Arguments CErr {A} e.
